@@ -51,6 +51,12 @@ def Cell.vals? {α} : Cell α → Option (List α)
   | .arr v => some v
   | .prim _ => none
 
+/-- the array a cell holds; a primitive is not an array (`np.stack` / `np.array(list)` then fail) -/
+def Cell.valsE {α} (c : Cell α) : Except Err (List α) :=
+  match c.vals? with
+  | some v => pure v
+  | none => throw Err.value
+
 abbrev Arr3 (α : Type) := List (List (List α))
 
 structure Nested (ν α : Type) where
@@ -153,9 +159,7 @@ def from3dToNested {ν α} [DecidableEq ν] (ops : NameOps ν) (X : Arr3 α)
 
 /-- `np.stack(row)` over the cells of one instance: every cell an array, all of one length -/
 def stackRow {α} (row : List (Cell α)) : Except Err (List (List α)) := do
-  let vs ← row.mapM (fun c => match c.vals? with
-    | some v => pure v
-    | none => throw Err.value)
+  let vs ← row.mapM Cell.valsE
   if allEq (vs.map List.length) then pure vs else throw Err.value
 
 /-- `from_multi_index_to_3d_numpy(X, instance_index, time_index)` -/
@@ -184,7 +188,7 @@ def cellSeries {α} (T : Nat) (colNested : Bool) : Cell α → Except Err (List 
   | .ser vs => if vs.length = T then pure vs else throw Err.unmodelled
   | .arr vs => if vs.length = T then pure vs else throw Err.unmodelled
   | .prim v =>
-    if colNested then (if T = 1 then pure [v] else throw Err.unmodelled)
+    if colNested then throw Err.unmodelled
     else pure (List.replicate T v)
 
 def cellLen {α} : Cell α → Nat
@@ -304,8 +308,15 @@ value_column_name="value", column_names)` -/
 def fromLongToNested {ν α} [DecidableEq ν] (ops : NameOps ν) (L : Long ν α)
     (instArg timeArg dimArg : String) (columnNames : Option (List ν)) :
     Except Err (Nested ν α) := do
-  if instArg ≠ L.inst ∨ timeArg ≠ L.time ∨ dimArg ≠ L.dim then throw Err.key
-  let (dims, table) ← pivot ops.lt L.rows
+  let colNames := [L.inst, L.time, L.dim, "value"]
+  if ¬ (instArg ∈ colNames ∧ timeArg ∈ colNames ∧ dimArg ∈ colNames) then throw Err.key
+  -- the id columns may be named in either role; any other assignment of columns is not modelled
+  let rows ←
+    if instArg = L.inst ∧ timeArg = L.time ∧ dimArg = L.dim then pure L.rows
+    else if instArg = L.time ∧ timeArg = L.inst ∧ dimArg = L.dim then
+      pure (L.rows.map (fun r => (r.2.1, r.1, r.2.2)))
+    else throw Err.unmodelled
+  let (dims, table) ← pivot ops.lt rows
   let N ← fromMIToNested ⟨instArg, timeArg, dims, table⟩ (some instArg) false
   let c := N.cols.length
   let names ← match columnNames with
@@ -317,9 +328,7 @@ def fromLongToNested {ν α} [DecidableEq ν] (ops : NameOps ν) (L : Long ν α
 
 /-- one column as an `(n, t)` matrix: `np.array(X.iloc[:, i].tolist())` -/
 def colMatrix {α} (col : List (Cell α)) : Except Err (List (List α)) := do
-  let vs ← col.mapM (fun c => match c.vals? with
-    | some v => pure v
-    | none => throw Err.value)
+  let vs ← col.mapM Cell.valsE
   if allEq (vs.map List.length) then pure vs else throw Err.value
 
 /-- `from_nested_to_2d_array(X, return_numpy)` -/
